@@ -8,7 +8,6 @@ import (
 	"errors"
 	"fmt"
 	"io"
-	"math"
 	"unicode/utf8"
 
 	"github.com/ohler55/ojg/gen"
@@ -271,11 +270,12 @@ func (t *Tokenizer) tokenizeBuffer(buf []byte, last bool) error {
 					if digitMap[b] != numDigit {
 						break
 					}
-					t.num.I = t.num.I*10 + uint64(b-'0')
-					if math.MaxInt64 < t.num.I {
+					if gen.BigLimit <= t.num.I {
 						t.num.FillBig()
+						t.num.AddDigit(b)
 						break
 					}
+					t.num.I = t.num.I*10 + uint64(b-'0')
 				}
 				if digitMap[b] == numDigit {
 					off++
@@ -352,7 +352,7 @@ func (t *Tokenizer) tokenizeBuffer(buf []byte, last bool) error {
 					}
 					t.num.Frac = t.num.Frac*10 + uint64(b-'0')
 					t.num.Div *= 10.0
-					if math.MaxInt64 < t.num.Frac {
+					if gen.BigLimit <= t.num.Div {
 						t.num.FillBig()
 						break
 					}
